@@ -31,7 +31,7 @@ class App:
 
         body = environ["wsgi.input"].read()
         flag = prog.get("block")
-        if flag:
+        if flag and not prog.get("write_first"):
             self.S.block_until(lambda: self.flags.get(flag), "app-wait", flag)
         chunks = list(prog.get("body", [b"ok"]))
         headers = [("Content-Type", "text/plain")]
@@ -42,7 +42,12 @@ class App:
         if prog.get("echo"):
             chunks = [body]
             headers = [("Content-Length", str(len(body)))]
-        start_response(prog.get("status", "200 OK"), headers)
+        write = start_response(prog.get("status", "200 OK"), headers)
+        if prog.get("write_first") and chunks:  # (an empty first chunk sends just the head)
+            # the head and the first chunk leave through write(); then the application goes on working
+            write(chunks.pop(0))
+            if flag:
+                self.S.block_until(lambda: self.flags.get(flag), "app-wait", flag)
 
         class It:
             def __init__(self):
